@@ -13,6 +13,13 @@ lost between the KCM chunk and the Follower's accept turn (`linklost`): either t
 the turn (the Connector is stopped, the records parked on the candidate connection are gone and must come again
 with the next connection), or the transport dies first (the turn still selects the dead connection and drains
 what was parked; the loss is noticed afterwards).
+
+The reactor's order is kept on both sides: an API call (`connect()`/`listen()`) continues in ONE eventual turn (the calls
+that are due when the iteration starts); whatever that turn -- or a record being read -- puts on the eventual queue runs
+in a LATER turn, and the socket is read in between: the `deliver` operations that follow in the case happen before the
+side's leftover turns (`settle()`, one `X turn` line per turn; the model defers nothing, so on the unchanged tree no such
+line ever appears).  The id counters of the real Managers can be fast-forwarded (`ffwd`) to the 4-byte boundary of the
+wire field: the stand-in for the ~2**31 connect()s that nobody can run.
 """
 import itertools
 import types
@@ -50,6 +57,12 @@ if "parked_queue_is_fifo" in open(_EXTRACT).read():
     PROP_MODULES.append("WV.Props.C13_Link")
 if "pending_opens_unbounded" in open(_EXTRACT).read():
     PROP_MODULES.append("WV.Props.C13_Backlog")
+# the 4-byte boundary of the id: the driven model's error branch, ids_disjoint restated with the limit, ids_never_wrap
+PROP_MODULES.append("WV.Props.C13_Wire")
+# translation validation of Manager.allocate_subchannel_id + the writers of the counter + to_be4's bound (needs the
+# translator section `extract_c13_wire`, see agents/sC13_integration.md)
+if "extract_c13_wire" in open(_EXTRACT).read():
+    PROP_MODULES.append("WV.Props.C13_PyIR")
 TRUSTED = ["L4 record delivery between the two Managers is exactly-once and in order (C10); the harness pipe is a FIFO "
            "(a re-sent old record is an explicit `dup` operation)",
            "TCP/hints/Noise: Connector.start() is a no-op, the harness creates the one negotiated link per generation "
@@ -59,15 +72,27 @@ TRUSTED = ["L4 record delivery between the two Managers is exactly-once and in o
            "real Inbound watermark (the model's delivery cursor falls back to the first unprocessed record by the same rule)",
            "application protocol callbacks do not call back into their transport re-entrantly",
            "OneShotObserver/EventualQueue fire waiting connect()/listen() calls in FIFO order (the harness takes the order "
-           "from the real queue)"]
+           "from the real queue)",
+           "the id boundary is reached by fast-forwarding Manager._next_subchannel_id (`ffwd n` = += 2n; Lean: "
+           "ffwd_is_n_allocations, only_connect_allocates), not by 2**31 real connect()s; the sequence-number field has the "
+           "same 4-byte limit and is not taken to its boundary; after an id stopped fitting the schedules have no further "
+           "connection loss (Outbound's re-send of the queued, unencodable OPEN is outside the model: it aborts the re-send "
+           "loop with ValueError and leaves the records queued behind it unsent)",
+           "between an API call's turn and the side's next eventual turn only socket reads (deliveries) are scheduled"]
 RULE = ("two real Managers (leader+follower) built through dilate(expected_subprotocols=unset|[]|[a]|[a,b]); random and "
         "small-scope exhaustive interleavings of connect/listen/write/loseConnection/loseWriteConnection on both sides "
         "and in-order record delivery, <=4 subchannels, names incl. non-ASCII, half-closeable and normal protocols, "
         "many OPENs for one name (1..129, a second name interleaved) before a late listen(); (re)connections with bursts of the Leader's records sharing the KCM chunk (first connection and reconnects), one direction black-holed before a drop (lost ACKs => re-sent records), activity while the link is down; connections lost between the KCM chunk and the Follower's accept turn (`linklost`: the Leader's reconnect overtakes the turn => parked records dropped and sent again; or the transport dies first => the turn drains them on the dead connection), also the very first connection, with declared sets and late listeners; calls issued right after dilate() (before the peer's PLEASE / role choice) and before the connection exists, by either side, with both sides opening subchannels; adversarial stream adds injected OPEN/DATA/CLOSE with arbitrary "
-        "scid/seq and re-delivered old records; non-trivial = at least one subchannel reached a protocol or was refused; "
+        "scid/seq and re-delivered old records; the 4-byte boundary of the subchannel id: allocation counters of one or both "
+        "real Managers fast-forwarded to 0..3 (or 1000) allocations before / up to 3 past the last id that fits to_be4, then "
+        "1..4 connect()s per side interleaved, data both ways, closes (quick 13 cases, thorough 85); the reactor's order "
+        "around a late listen(): 1..3 held OPENs with 0..2 queued DATA each, the opener's next records (DATA / CLOSE / "
+        "another OPEN) read from the socket after listen()'s turn and before the listener's next eventual turn (quick 18 "
+        "enumerated, thorough 216), and the same turn discipline in every random case; non-trivial = at least one subchannel reached a protocol or was refused; "
         "distinct = distinct canonical output traces")
 
 NAMES = ["a", "b", "é", "名前", "x y"]
+
 
 
 def hs(s):
@@ -183,6 +208,7 @@ class Side:
         self.rx_new = 0         # how many distinct records of the peer have reached this side (processed, or parked on
                                 # the current connection); falls back to the processed count when a connection is lost
         self.parked_new = []    # new records parked on the current connection, not yet handed over by select()
+        self.unsendable = set() # seqnums of records that were numbered and queued but can never be encoded (id > 4 bytes)
         self.wants_drop = False
         self.peer = None
         self.clock = Clock()
@@ -261,6 +287,14 @@ class Side:
         self.effects.append(s)
 
     def sent(self, r):
+        if sequenced(r):
+            try:
+                encode_record(r)
+            except ValueError:
+                # numbered (the seqnum is consumed) and queued, but `to_be4` refuses it every time it is to be written:
+                # it never reaches the wire, the peer never sees this seqnum
+                self.unsendable.add(r.seqnum)
+                return
         if isinstance(r, Open):
             self.eff(f"tx-open {r.seqnum} {r.scid} {hs(r.subprotocol)}")
             self.flight.append(r)
@@ -279,6 +313,17 @@ class Side:
 
     def connected(self):
         return self.proto is not None and self.mgr._connection is self.proto
+
+    def one_turn(self):
+        """one reactor iteration's timed-call phase (runUntilCurrent): the calls that are due when it starts; what they
+        schedule (`callLater(0, …)`: the next eventual turn) waits for the next iteration -- after the I/O phase"""
+        clock = self.clock
+        due = [c for c in clock.calls if c.getTime() <= clock.seconds()]
+        for c in due:
+            if c in clock.calls:      # not cancelled by an earlier one
+                clock.calls.remove(c)
+                c.called = 1
+                c.func(*c.args, **c.kw)
 
     def feed(self, frames):
         """the peer's frames arrive here as ONE chunk"""
@@ -312,6 +357,8 @@ def op_line(op):
         return f"{side} {k} {op[2]}"
     if k == "deliver":
         return f"deliver {side}"
+    if k == "ffwd":
+        return f"{side} ffwd {op[2]}"
     if k == "rx":
         rk = op[2]
         if rk == "open":
@@ -346,6 +393,7 @@ class Run:
         self.steps = []
         self.sides = {}
         self.waiting = {"A": [], "B": []}
+        self.inflight = {"A": [], "B": []}   # connect()/listen() calls that did not complete in their first turn
         self.fifo_ok = True
         self.notes = []          # schedule classes that really happened (distribution tags)
 
@@ -393,6 +441,8 @@ class Run:
 
     def classify(self, dst, r):
         """a sequenced record of the peer reaches `dst`: the next new one, or one it has seen before (a re-send)"""
+        while dst.rx_new in dst.peer.unsendable:
+            dst.rx_new += 1
         if r.seqnum == dst.rx_new:
             dst.rx_new += 1
             return True
@@ -520,6 +570,24 @@ class Run:
         self.turns(F)
         self.autoflush()
 
+    def settle(self, side):
+        """the rest of `side`'s eventual queue, one reactor turn per line (`X turn`).  On the unchanged tree nothing is
+        ever left: listen() hands queued data over inside its own turn and a record is handled when it is read."""
+        while side.eq._calls:
+            CURRENT[0] = side
+            mark = len(side.effects)
+            side.one_turn()
+            self.notes.append("leftover-turn")
+            fin = [(op, h) for op, h in self.inflight[side.label] if h.done]
+            if fin:
+                self.inflight[side.label] = [(op, h) for op, h in self.inflight[side.label] if not h.done]
+                self.emit(op_line(fin[0][0]), fin[0][0], side, mark, fin[0][1].err)
+                for op, h in fin[1:]:
+                    self.emit(op_line(op), op, side, len(side.effects), h.err)
+            else:
+                self.emit(f"{side.label} turn", ["turn", side.label], side, mark, None)
+        assert not self.inflight[side.label], "endpoint call did not complete"
+
     def lose_side(self, s, fire=True):
         """side `s` has no connection any more (`X lost`): what was parked on it and not handed over is gone, and the
         peer's cursor falls back to the first record `s` has not processed (the peer sends those again)"""
@@ -544,6 +612,9 @@ class Run:
 
     def do(self, op):
         k = op[0]
+        if k in ("drop", "link", "linklost", "hold", "release"):
+            for s in self.sides.values():
+                self.settle(s)
         if k == "drop":
             return self.drop()
         if k == "link":
@@ -556,6 +627,10 @@ class Run:
                 self.autoflush()
             return
         side = self.side_of(op)
+        if k != "deliver":
+            # whatever this side's eventual queue still holds runs before its application does anything else; only
+            # I/O (records read from the socket) can come between an API call's turn and the next turn
+            self.settle(side)
         CURRENT[0] = side
         mark = len(side.effects)
         err = None
@@ -568,9 +643,23 @@ class Run:
                     # no connection yet: the call waits for the main channel like the early ones
                     self.waiting[side.label].append((op, h))
                     return
-                side.eq.flush_sync()
-                assert h.done, "endpoint call did not complete"
+                # the reactor's order: the call continues in the NEXT eventual turn (when_fired() always waits one);
+                # what that turn itself puts on the eventual queue runs a turn later, and the socket is read in between
+                # (the following `deliver` operations of the case) -- see settle()
+                side.one_turn()
+                if not h.done:
+                    # the call needs further turns (never on the unchanged tree): it completes in settle(), after the
+                    # I/O that the case schedules in between, and is reported there
+                    self.notes.append("api-call-needs-more-turns")
+                    self.inflight[side.label].append((op, h))
+                    if len(side.effects) > mark:
+                        self.emit(f"{side.label} turn", ["turn", side.label], side, mark, None)
+                    return
                 err = h.err
+            elif k == "ffwd":
+                # stand-in for op[2] successful connect()s (each closed again later): the id counter is what they leave
+                # behind in the Manager as far as this property's model is concerned
+                side.mgr._next_subchannel_id += 2 * op[2]
             elif k in ("write", "lose", "losew"):
                 pid = op[2]
                 if pid >= len(side.protos) or side.protos[pid].transport is None:
@@ -664,6 +753,8 @@ class Run:
         self.link(c.get("burst", 0))
         for op in c["ops"]:
             self.do(op)
+        for s in self.sides.values():
+            self.settle(s)
 
 
 # ---------------------------------------------------------------------------
@@ -987,6 +1078,14 @@ CORPUS = [
             ("linklost", 4, "reconnect"), ("link", 3), ("listen", "B", "a", "half"), ("deliver", "A"), ("deliver", "B"),
             ("deliver", "B"), ("deliver", "A"), ("write", "B", 0, "0a"), ("losew", "B", 0), ("deliver", "B"), ("deliver", "B")],
            expB=["a", "c"], expA=[]),
+    # the reactor's order around a late listen(): OPEN+DATA are held; the opener closes; listen(); the CLOSE is read from
+    # the socket before the listener's next eventual turn: the protocol reads the data, THEN gets connectionLost
+    mkcase([("connect", "A", "a", "full"), ("write", "A", 0, "68656c6c6f"), ("deliver", "A"), ("deliver", "A"), ("lose", "A", 0),
+            ("listen", "B", "a", "full"), ("deliver", "A"), ("deliver", "B"), ("deliver", "A")]),
+    # the same with more DATA read in that I/O phase: it must come after the DATA that was queued
+    mkcase([("connect", "A", "a", "half"), ("write", "A", 0, "01"), ("deliver", "A"), ("deliver", "A"), ("write", "A", 0, "02"),
+            ("losew", "A", 0), ("listen", "B", "a", "half"), ("deliver", "A"), ("deliver", "A"), ("write", "B", 0, "03"),
+            ("deliver", "B")]),
     # a peer that opens one of OUR ids: the next local connect() raises AssertionError (open_exactly_once, case 3)
     mkcase([("rx", "A", "open", 0, 1, "a"), ("connect", "A", "b", "full"), ("connect", "A", "b", "full"),
             ("listen", "A", "a", "full"), ("write", "A", 0, "01")]),
@@ -1186,8 +1285,129 @@ def many_opens(n, second=0, leader_opens=True, extra=()):
     return mkcase(ops, sa="b1" if leader_opens else "a0", sb="a0" if leader_opens else "b1")
 
 
+WIRE_LIMIT = 2 ** 32            # to_be4: 0 <= value < 2**32
+LAST_ODD_IN = (WIRE_LIMIT - 1 - 1) // 2     # allocations after which the Leader's next id is 2**32 - 1 (the last odd one that fits)
+LAST_EVEN_IN = (WIRE_LIMIT - 2 - 2) // 2    # … the Follower's next id is 2**32 - 2
+
+
+def boundary_case(la, lb, na, nb, leader_is_a=True, names=("a", "b"), kind="full", data=True, mix=0):
+    """the 4-byte boundary of the subchannel id.  The real Managers' allocation counters are fast-forwarded (`ffwd`: the
+    stand-in for ~2**31 earlier connect()s, which nobody can run) so that side A / B has `la` / `lb` allocations left
+    before its next id no longer fits the wire field (None: not fast-forwarded, negative: already past it); then A
+    calls connect() `na` times and B `nb` times, interleaved (`mix`), everything is delivered, every subchannel that
+    exists carries data both ways and is closed.  No connection loss after an id stopped fitting: Outbound's re-send of
+    a record that cannot be encoded is outside the model."""
+    sa, sb = ("b1", "a0") if leader_is_a else ("a0", "b1")
+    pre = [("listen", "A", n, kind) for n in names] + [("listen", "B", n, kind) for n in names]
+    ops = []
+    for lab, left in (("A", la), ("B", lb)):
+        if left is not None:
+            last = LAST_ODD_IN if (lab == "A") == leader_is_a else LAST_EVEN_IN
+            ops.append(("ffwd", lab, last + 1 - left))
+    todo = {"A": na, "B": nb}
+    i = 0
+    order = []
+    while todo["A"] or todo["B"]:
+        lab = "AB"[(i + mix) % 2] if mix < 2 else ("A" if todo["A"] else "B")
+        if not todo[lab]:
+            lab = "B" if lab == "A" else "A"
+        todo[lab] -= 1
+        order.append(lab)
+        i += 1
+    for j, lab in enumerate(order):
+        ops.append(("connect", lab, names[j % len(names)], kind))
+        if mix == 3:
+            ops.append(("deliver", lab))
+    ops += [("deliver", "A"), ("deliver", "B")] * (na + nb)
+    if data:
+        for pid in range(0, min(na + nb, 6)):
+            for lab in "AB":
+                ops.append(("write", lab, pid, "%02x" % (16 * (lab == "B") + pid)))
+        ops += [("deliver", "A"), ("deliver", "B")] * (2 * min(na + nb, 6))
+        for pid in range(0, min(na + nb, 6)):
+            ops.append(("lose" if kind == "full" else "losew", "AB"[pid % 2], pid))
+        ops += [("deliver", "A"), ("deliver", "B")] * (2 * min(na + nb, 6))
+    return mkcase(ops, pre=pre, sa=sa, sb=sb)
+
+
+def boundary_cases(rng, full):
+    out = [
+        # the Leader has exactly one id left (2**32 - 1); it opens three times while the Follower opens its first ones
+        boundary_case(1, None, 3, 2),
+        boundary_case(1, None, 3, 2, leader_is_a=False),     # … the Follower (side A here) has 2**32 - 2 left
+        # both sides at their last id
+        boundary_case(1, 1, 2, 2, mix=1),
+        boundary_case(2, 1, 4, 3, kind="half"),
+        # already past the field: every connect() fails, the peer is unaffected
+        boundary_case(0, None, 2, 2),
+        boundary_case(-3, 0, 1, 1, data=False),
+        # far from the boundary after a long life: nothing special
+        boundary_case(1000, 5, 3, 3, mix=3),
+    ]
+    for _ in range(40 if full else 6):
+        la = rng.choice([None, 0, 1, 1, 2, 3])
+        lb = rng.choice([None, 0, 1, 1, 2, 3])
+        if la is None and lb is None:
+            la = 1
+        out.append(boundary_case(la, lb, rng.choice([1, 2, 3, 4]), rng.choice([0, 1, 2, 3]), leader_is_a=rng.random() < 0.5,
+                                 kind=rng.choice(["full", "full", "half"]), data=rng.random() < 0.7, mix=rng.choice([0, 1, 2, 3]),
+                                 names=rng.choice([("a",), ("a", "b"), ("é", "a")])))
+    if full:
+        for la in (None, -1, 0, 1, 2):
+            for lb in (None, 0, 1, 2):
+                for leader_is_a in (True, False):
+                    if la is None and lb is None:
+                        continue
+                    out.append(boundary_case(la, lb, 3, 3, leader_is_a=leader_is_a, mix=(la or 0) % 3, data=False))
+    return out
+
+
+def late_listen_io(full):
+    """OPEN (+DATA, +CLOSE) held for a listener that comes later, and the reactor's order around that listen(): the
+    peer's NEXT record(s) for the held subchannel(s) -- more DATA, the CLOSE, another OPEN -- are read from the socket
+    right after the turn in which listen() ran and BEFORE the side's next eventual turn (a record handed over by
+    listen() must not be overtaken by one read afterwards); then the listener's application answers and closes"""
+    for leader_opens in ((True, False) if full else (True,)):
+        src, dst = "AB"
+        for kind in (("full", "half") if full else ("full",)):
+            close = "lose" if kind == "full" else "losew"
+            for nopen in ((1, 2, 3) if full else (1, 2)):
+                for queued in (0, 1, 2):                # DATA records queued on the held subchannel before listen()
+                    for after in (("c",), ("d",), ("d", "c"), ("d", "d", "c"), ("o", "d", "c"), ("c", "o")) if full \
+                            else (("c",), ("d", "c"), ("o", "d")):
+                        ops = []
+                        for i in range(nopen):
+                            ops += [("connect", src, "a", kind), ("deliver", src)]
+                        ctr = 0
+                        for i in range(nopen):
+                            for _ in range(queued):
+                                ctr += 1
+                                ops += [("write", src, i, "%02x" % ctr), ("deliver", src)]
+                        inflight = 0
+                        for what in after:             # written by the opener, still in flight when listen() is called
+                            if what == "d":
+                                ctr += 1
+                                ops.append(("write", src, 0, "%02x" % ctr))
+                                if nopen > 1:
+                                    ctr += 1
+                                    ops.append(("write", src, nopen - 1, "%02x" % ctr))
+                                    inflight += 1
+                            elif what == "c":
+                                ops.append((close, src, 0))
+                            else:
+                                ops.append(("connect", src, "a", kind))
+                            inflight += 1
+                        ops.append(("listen", dst, "a", kind))
+                        ops += [("deliver", src)] * inflight      # the I/O phase between listen()'s turn and the next one
+                        ops += [("write", dst, 0, "ee"), ("deliver", dst), ("deliver", src), (close, dst, 0),
+                                ("deliver", dst), ("deliver", src), ("deliver", dst)]
+                        yield mkcase(ops, sa="b1" if leader_opens else "a0", sb="a0" if leader_opens else "b1")
+
+
 def cases(rng, tier):
     out = [dict(c) for c in CORPUS]
+    out += boundary_cases(rng, tier == "thorough")
+    out += list(late_listen_io(tier == "thorough"))
     n = 1 if tier == "quick" else 25
     for _ in range(220 * n):
         out.append(rand_case(rng))
@@ -1234,10 +1454,35 @@ def run_case(case):
     for op in case["ops"] + ([case["first"]] if case.get("first") else []):
         if op[0] == "linklost":
             tags.append("op:linklost:" + op[2])
+    ffwded = set()
+    prev = {}
     for op, lab, effs, err, summ, _arr in run.steps:
         tags.append("op:" + op[0])
         if err:
             tags.append("err:" + err)
+        # --- the id boundary
+        if op[0] == "ffwd":
+            ffwded.add(lab)
+        if op[0] == "connect" and lab in ffwded:
+            ids = [int(e.split()[2]) for e in effs if e.startswith("tx-open ")]
+            if ids:
+                tags.append("ids:allocated-" + ("last-that-fits" if ids[0] + 2 >= WIRE_LIMIT else "near-limit" if
+                                                ids[0] + 8 >= WIRE_LIMIT else "after-ffwd"))
+            elif err == "ValueError":
+                tags.append("ids:beyond-wire-field:connect-fails")
+        # --- I/O between the turn of a late listen() and the side's next eventual turn
+        if op[0] == "deliver" and _arr and prev.get(lab) is not None:
+            held = prev[lab]
+            r = _arr[0]
+            if getattr(r, "scid", None) in held:
+                tags.append("sched:io-after-late-listen:" + type(r).__name__.lower())
+            elif isinstance(r, Open):
+                tags.append("sched:io-after-late-listen:open-other")
+        if op[0] == "listen" and err is None and any(e.startswith("build ") for e in effs):
+            side = run.sides[lab]
+            prev[lab] = {side.protos[int(e.split()[1])].transport._scid for e in effs if e.startswith("build ")}
+        elif op[0] != "deliver" and lab in prev:
+            prev[lab] = None
         for e in effs:
             if e.split()[0] in ("lost", "rlost", "wlost", "log"):
                 tags.append("ev:" + " ".join(e.split()[:1] + (e.split()[1:2] if e.startswith("log") else [])))
@@ -1252,6 +1497,10 @@ def search(rng, seconds, seeds):
     for c in seeds:
         yield c, run_case(c)
     for c in CORPUS:
+        yield c, run_case(c)
+    for c in boundary_cases(rng, False):
+        yield c, run_case(c)
+    for c in late_listen_io(False):
         yield c, run_case(c)
     while time.time() - t0 < seconds:
         c = rand_case(rng, adversarial=rng.random() < 0.3)
